@@ -569,13 +569,18 @@ impl<'a> Env<'a> {
                 });
             };
             for m in self.associated_in(base, depth) {
+                // a `_`-prefixed function declared on the base has no wrapper to forward to; a
+                // forwarder that merely got its name from a `_`-prefixed base field has one
+                if m.name.starts_with('_') && m.kind == MKind::Own {
+                    continue;
+                }
                 expose(&m.name, m.func, &m.declared_in, m.is_virtual_origin, &mut out);
             }
             if i > 0 {
                 if let Some((owner, fs, _)) = self.virtuals(base) {
                     for f in fs {
                         // a virtual function without receiver has no wrapper to forward to
-                        if has_receiver(f) {
+                        if has_receiver(f) && !f.name.as_str().starts_with('_') {
                             expose(f.name.as_str(), f, &owner, true, &mut out);
                         }
                     }
